@@ -335,9 +335,146 @@ fn values<W: Write>(r: &mut Rng, cfg: &TermCfg, n: usize, o: &mut Out<W>) {
                 }
             }
         }
+        // a structurally close twin (moved placeholder, swapped operands, other constructor / punctuation / stamp)
+        // that is not semantically equal must render differently (C16) — and print differently in every format
+        if let Some(tw) = twist(r, &v) {
+            if canon_dedup(&v) != canon_dedup(&tw) && v != tw {
+                o.checked("C16");
+                if let (Ok(a), Ok(b)) = (catch_unwind(AssertUnwindSafe(|| FormatterTypst.format(&v))), catch_unwind(AssertUnwindSafe(|| FormatterTypst.format(&tw)))) {
+                    if a == b {
+                        o.fail("C16", "-", "two structurally close but different values render to the same Typst text", &format!("a={} b={} text={}", ser::narsese(&v, Mode::Raw), ser::narsese(&tw, Mode::Raw), ser::hs(&a)));
+                    }
+                }
+            }
+        }
         o.run("cast", "-", &raw);
         cast_oracle(o, &v);
         // the stand-alone item printers/parsers
+    }
+}
+
+/// a structurally close but DIFFERENT term: a moved image placeholder, two swapped components of an ordered
+/// compound, swapped operands of an asymmetric statement / difference, the extensional constructor for the
+/// intensional one, another atom kind, the next interval — applied at the root or inside a random component
+fn twist_term(r: &mut Rng, t: &Term) -> Option<Term> {
+    use Term::*;
+    let b = |x: &Term| Box::new(x.clone());
+    // descend into a component half of the time
+    if r.chance(1, 2) {
+        let inner = |r: &mut Rng, v: &Vec<Term>| -> Option<Vec<Term>> {
+            if v.is_empty() {
+                return None;
+            }
+            let i = r.below(v.len());
+            let mut w = v.clone();
+            w[i] = twist_term(r, &v[i])?;
+            Some(w)
+        };
+        let inner_set = |r: &mut Rng, s: &TermSetType| -> Option<Vec<Term>> {
+            let v: Vec<Term> = s.iter().cloned().collect();
+            inner(r, &v)
+        };
+        let got = match t {
+            SetExtension(s) => inner_set(r, s).map(Term::new_set_extension),
+            SetIntension(s) => inner_set(r, s).map(Term::new_set_intension),
+            IntersectionExtension(s) => inner_set(r, s).map(Term::new_intersection_extension),
+            IntersectionIntension(s) => inner_set(r, s).map(Term::new_intersection_intension),
+            Conjunction(s) => inner_set(r, s).map(Term::new_conjunction),
+            Disjunction(s) => inner_set(r, s).map(Term::new_disjunction),
+            ConjunctionParallel(s) => inner_set(r, s).map(Term::new_conjunction_parallel),
+            Product(v) => inner(r, v).map(Product),
+            ConjunctionSequential(v) => inner(r, v).map(ConjunctionSequential),
+            ImageExtension(i, v) => inner(r, v).map(|w| ImageExtension(*i, w)),
+            ImageIntension(i, v) => inner(r, v).map(|w| ImageIntension(*i, w)),
+            Negation(x) => twist_term(r, x).map(|y| Negation(Box::new(y))),
+            Inheritance(x, y) => if r.chance(1, 2) { twist_term(r, x).map(|z| Inheritance(Box::new(z), b(y))) } else { twist_term(r, y).map(|z| Inheritance(b(x), Box::new(z))) },
+            Implication(x, y) => if r.chance(1, 2) { twist_term(r, x).map(|z| Implication(Box::new(z), b(y))) } else { twist_term(r, y).map(|z| Implication(b(x), Box::new(z))) },
+            _ => None,
+        };
+        if got.is_some() {
+            return got;
+        }
+    }
+    Some(match t {
+        Word(n) => if r.chance(1, 2) { Operator(n.clone()) } else { VariableQuery(n.clone()) },
+        VariableIndependent(n) => VariableDependent(n.clone()),
+        VariableDependent(n) => VariableQuery(n.clone()),
+        VariableQuery(n) => VariableIndependent(n.clone()),
+        Operator(n) => Word(n.clone()),
+        Interval(n) => Interval(n.wrapping_add(1)),
+        Placeholder => return None,
+        SetExtension(s) => SetIntension(s.clone()),
+        SetIntension(s) => SetExtension(s.clone()),
+        IntersectionExtension(s) => IntersectionIntension(s.clone()),
+        IntersectionIntension(s) => IntersectionExtension(s.clone()),
+        Conjunction(s) => if r.chance(1, 2) { Disjunction(s.clone()) } else { ConjunctionParallel(s.clone()) },
+        Disjunction(s) => Conjunction(s.clone()),
+        ConjunctionParallel(s) => Conjunction(s.clone()),
+        DifferenceExtension(x, y) => if x != y && r.chance(1, 2) { DifferenceExtension(y.clone(), x.clone()) } else { DifferenceIntension(x.clone(), y.clone()) },
+        DifferenceIntension(x, y) => if x != y && r.chance(1, 2) { DifferenceIntension(y.clone(), x.clone()) } else { DifferenceExtension(x.clone(), y.clone()) },
+        Product(v) | ConjunctionSequential(v) => {
+            let seq = matches!(t, ConjunctionSequential(_));
+            let pos: Vec<usize> = (0..v.len().saturating_sub(1)).filter(|&i| v[i] != v[i + 1]).collect();
+            if pos.is_empty() {
+                if seq { Product(v.clone()) } else { ConjunctionSequential(v.clone()) }
+            } else {
+                let i = *r.pick(&pos);
+                let mut w = v.clone();
+                w.swap(i, i + 1);
+                if seq { ConjunctionSequential(w) } else { Product(w) }
+            }
+        }
+        ImageExtension(i, v) | ImageIntension(i, v) => {
+            let ext = matches!(t, ImageExtension(..));
+            // move the placeholder to another slot (the point of C16-c), or switch the image kind
+            let slots: Vec<usize> = (0..=v.len()).filter(|j| j != i).collect();
+            if !slots.is_empty() && r.chance(3, 4) {
+                let j = *r.pick(&slots);
+                if ext { ImageExtension(j, v.clone()) } else { ImageIntension(j, v.clone()) }
+            } else if ext { ImageIntension(*i, v.clone()) } else { ImageExtension(*i, v.clone()) }
+        }
+        Negation(x) => (**x).clone(),
+        Inheritance(x, y) => if x != y { Inheritance(y.clone(), x.clone()) } else { Similarity(x.clone(), y.clone()) },
+        Similarity(x, y) => Inheritance(x.clone(), y.clone()),
+        Implication(x, y) => if x != y { Implication(y.clone(), x.clone()) } else { Equivalence(x.clone(), y.clone()) },
+        Equivalence(x, y) => Implication(x.clone(), y.clone()),
+        ImplicationPredictive(x, y) => if x != y && r.chance(1, 2) { ImplicationPredictive(y.clone(), x.clone()) } else { ImplicationRetrospective(x.clone(), y.clone()) },
+        ImplicationConcurrent(x, y) => if x != y { ImplicationConcurrent(y.clone(), x.clone()) } else { ImplicationPredictive(x.clone(), y.clone()) },
+        ImplicationRetrospective(x, y) => if x != y && r.chance(1, 2) { ImplicationRetrospective(y.clone(), x.clone()) } else { ImplicationPredictive(x.clone(), y.clone()) },
+        EquivalencePredictive(x, y) => if x != y { EquivalencePredictive(y.clone(), x.clone()) } else { EquivalenceConcurrent(x.clone(), y.clone()) },
+        EquivalenceConcurrent(x, y) => EquivalencePredictive(x.clone(), y.clone()),
+    })
+}
+
+/// a close but different value: a twisted term, another punctuation mark, another stamp
+fn twist(r: &mut Rng, n: &Narsese) -> Option<Narsese> {
+    let stamp = |s: &Stamp| match s {
+        Stamp::Eternal => Stamp::Present,
+        Stamp::Past => Stamp::Future,
+        Stamp::Present => Stamp::Past,
+        Stamp::Future => Stamp::Present,
+        Stamp::Fixed(k) => Stamp::Fixed(k.wrapping_add(1)),
+    };
+    let sent = |r: &mut Rng, s: &Sentence| -> Option<Sentence> {
+        Some(match (r.below(3), s) {
+            (0, Sentence::Judgement(t, x, st)) => Sentence::Goal(t.clone(), x.clone(), st.clone()),
+            (0, Sentence::Goal(t, x, st)) => Sentence::Judgement(t.clone(), x.clone(), st.clone()),
+            (0, Sentence::Question(t, st)) => Sentence::Quest(t.clone(), st.clone()),
+            (0, Sentence::Quest(t, st)) => Sentence::Question(t.clone(), st.clone()),
+            (1, Sentence::Judgement(t, x, st)) => Sentence::Judgement(t.clone(), x.clone(), stamp(st)),
+            (1, Sentence::Goal(t, x, st)) => Sentence::Goal(t.clone(), x.clone(), stamp(st)),
+            (1, Sentence::Question(t, st)) => Sentence::Question(t.clone(), stamp(st)),
+            (1, Sentence::Quest(t, st)) => Sentence::Quest(t.clone(), stamp(st)),
+            (_, Sentence::Judgement(t, x, st)) => Sentence::Judgement(twist_term(r, t)?, x.clone(), st.clone()),
+            (_, Sentence::Goal(t, x, st)) => Sentence::Goal(twist_term(r, t)?, x.clone(), st.clone()),
+            (_, Sentence::Question(t, st)) => Sentence::Question(twist_term(r, t)?, st.clone()),
+            (_, Sentence::Quest(t, st)) => Sentence::Quest(twist_term(r, t)?, st.clone()),
+        })
+    };
+    match n {
+        Narsese::Term(t) => twist_term(r, t).map(Narsese::Term),
+        Narsese::Sentence(s) => sent(r, s).map(Narsese::Sentence),
+        Narsese::Task(k) => sent(r, &k.0).map(|s| Narsese::Task(Task(s, k.1.clone()))),
     }
 }
 
@@ -482,6 +619,26 @@ fn cast_oracle<W: Write>(o: &mut Out<W>, v: &Narsese) {
     }
 }
 
+/// C14 (lexical): `extract_terms` of every sub-term = the components it stores
+fn lex_extract_oracle<W: Write>(o: &mut Out<W>, t: &lx::Term) {
+    use narsese::api::ExtractTerms;
+    let stored: Vec<lx::Term> = match t {
+        lx::Term::Atom { .. } => vec![t.clone()],
+        lx::Term::Compound { terms, .. } | lx::Term::Set { terms, .. } => terms.clone(),
+        lx::Term::Statement { subject, predicate, .. } => vec![(**subject).clone(), (**predicate).clone()],
+    };
+    o.checked("C14");
+    let got = t.clone().extract_terms_to_vec();
+    if got != stored {
+        o.fail("C14", "-", "lexical extract_terms does not return the stored components", &format!("term={} got={}", ser::lterm(t), got.iter().map(ser::lterm).collect::<Vec<_>>().join(" ")));
+    }
+    if !matches!(t, lx::Term::Atom { .. }) {
+        for k in &stored {
+            lex_extract_oracle(o, k);
+        }
+    }
+}
+
 /// C02 / C15(lexical)
 fn lexvalues<W: Write>(r: &mut Rng, cfg: &TermCfg, n: usize, o: &mut Out<W>) {
     for f in FORMATS {
@@ -498,9 +655,18 @@ fn lexvalues<W: Write>(r: &mut Rng, cfg: &TermCfg, n: usize, o: &mut Out<W>) {
                 if back != format!("ok {ser_v}") {
                     o.fail("C02", f, "lexical parse(format(x)) != x", &format!("value={ser_v} text={hs} got={back}"));
                 }
+                // C15: whatever else happens, the KIND read back is the kind printed (a task stays a task even with an
+                // empty budget, a sentence a sentence, a term a term)
+                o.checked("C15");
+                let kind_tag = match &v { lx::Narsese::Term(_) => "ok ( LNTerm ", lx::Narsese::Sentence(_) => "ok ( LNSentence ", lx::Narsese::Task(_) => "ok ( LNTask " };
+                if back.starts_with("ok ") && !back.starts_with(kind_tag) {
+                    o.fail("C15", f, "lexical parse(format(x)) has a different kind than x", &format!("value={ser_v} text={hs} got={back}"));
+                }
             }
             o.run("lcast", "-", &ser_v);
             o.run("lapi", "-", &ser::lterm(v.get_term()));
+            // C14, lexical half: consuming extraction returns the stored components, in order, duplicates included
+            lex_extract_oracle(o, v.get_term());
             // C15 lexical cast laws
             o.checked("C15");
             if let lx::Narsese::Sentence(s) = &v {
@@ -561,17 +727,20 @@ fn sugar_operands<W: Write>(o: &mut Out<W>) {
                     (st.copula_equivalence_retrospective, Term::new_equivalence_predictive(p.clone(), s.clone())),
                 ];
                 for (cop, want) in cases {
-                    let text = format!("{}{} {} {}{}", st.brackets.0, ff.format_term(s), cop, ff.format_term(p), st.brackets.1);
-                    let hs = ser::hs(&text);
                     let canon = format!("ok {}", ser::narsese(&Narsese::Term(want), Mode::Canon));
-                    let e = o.run("eparse", f, &hs);
-                    let l = o.run("lfold", f, &hs);
-                    o.checked("C10");
-                    if e != canon {
-                        o.fail("C10", f, "derived copula: the enum parser does not build the documented term", &format!("text={hs} got={e} want={canon}"));
-                    }
-                    if l != canon {
-                        o.fail("C10", f, "derived copula: lexical parse + fold does not build the documented term", &format!("text={hs} got={l} want={canon}"));
+                    // the copula directly after the operand (no blank), one blank, two blanks
+                    for sp in ["", " ", "  "] {
+                        let text = format!("{}{}{sp}{}{sp}{}{}", st.brackets.0, ff.format_term(s), cop, ff.format_term(p), st.brackets.1);
+                        let hs = ser::hs(&text);
+                        let e = o.run("eparse", f, &hs);
+                        let l = o.run("lfold", f, &hs);
+                        o.checked("C10");
+                        if e != canon {
+                            o.fail("C10", f, "derived copula: the enum parser does not build the documented term", &format!("text={hs} got={e} want={canon}"));
+                        }
+                        if l != canon {
+                            o.fail("C10", f, "derived copula: lexical parse + fold does not build the documented term", &format!("text={hs} got={l} want={canon}"));
+                        }
                     }
                 }
             }
@@ -1155,9 +1324,11 @@ fn api<W: Write>(r: &mut Rng, cfg: &TermCfg, n: usize, o: &mut Out<W>) {
 }
 
 // ---------------- C17 ----------------
-const NAME_ARGS: [&str; 22] = [
+const NAME_ARGS: [&str; 36] = [
     "x", "", "7", "+7", "007", "+", "-", "-0", "-1", "18446744073709551615", "18446744073709551616",
     "+18446744073709551615", "1 ", " 1", "１", "1_0", "0x10", "a b", "名", "++1", "1e3", "99999999999999999999999",
+    // "verbatim" means verbatim: names that look like prefixes, keywords or padded text must come back unchanged
+    "^op", "^", "^^x", "$x", "#y", "?q", "_", "__a", "-->", "<a>", " x ", "X\u{0}Y", "操作", "+-1",
 ];
 fn mutators<W: Write>(r: &mut Rng, cfg: &TermCfg, n: usize, o: &mut Out<W>) {
     for _ in 0..n {
